@@ -1,7 +1,8 @@
 (* Props/C08.v — Kruskal re-parameterisations preserve the tensor. Only statements, `exact`, Print Assumptions. *)
-From Coq Require Import List Arith Bool ZArith Permutation Ring.
-From PV Require Import Base.Index Base.Perm Base.Sum Model.Repr Model.C08Kruskal Proofs.C08Proofs.
+From Coq Require Import List Arith Bool ZArith QArith Permutation Ring Sorted.
+From PV Require Import Base.Index Base.Perm Base.Sum Model.Repr Model.C08Kruskal Proofs.C08Proofs Proofs.C08NormalForm Proofs.C08Vec.
 Import ListNotations.
+Local Open Scope nat_scope.
 
 Section C08.
 Variable V : Type.
@@ -47,7 +48,7 @@ Proof. intros; eapply den_fixsigns; eauto. Qed.
 Theorem C08_sign_parity : forall (negcol : list V -> bool) K r,
   Nat.even (length (flips_of (fun n r => memb n (fs_modes v0 negcol K r)) (length (kfactors K)) r)) = true.
 Proof. intros negcol K r. exact (fixsigns_parity V v0 vinv negcol K r). Qed.
-(* fixsigns(other), pairing rule of the MATLAB original (pyttb's off-by-one is finding A-29): even number of flips
+(* fixsigns(other), pairing rule of the repaired pyttb code (= the MATLAB original; A-29 fixed): even number of flips
    for every score comparison / sign oracle *)
 Theorem C08_sign_parity_other : forall (neg : V -> bool) (leb : V -> V -> bool) A B r,
   Nat.even (length (flips_of (fun n r => memb n (fso_modes v0 vadd vmul vopp neg leb A B r)) (length (kfactors A)) r)) = true.
@@ -56,6 +57,38 @@ Proof. intros neg leb A B r. exact (fixsigns_other_parity V v0 vadd vmul vopp vi
 (* the insertion argsort used by the executable instances is a permutation for every comparison function *)
 Theorem C08_argsort_perm : forall (leb : V -> V -> bool) l, is_perm (argsort_desc leb l) (length l).
 Proof. intros. apply argsort_desc_perm. Qed.
+
+
+(* ---- wave 2: permute over modes, vector / list conversions, update ---- *)
+(* permute(order): weights kept, shape permuted, entry i of the result = entry (i o order^-1) of K *)
+Theorem C08_permute : forall K p, is_perm p (length (kfactors K)) ->
+  kweights (k_permute p K) = kweights K /\ kshape (k_permute p K) = pick 0 p (kshape K) /\
+  forall i, length i = length (kfactors K) -> den (k_permute p K) i = den K (pick 0 (invperm p) i).
+Proof. intros; eapply den_permute; eauto. Qed.
+
+(* from_vector(tovec(K, include_weights=False), shape, contains_weights=False): the factors exactly, unit weights *)
+Theorem C08_vec_roundtrip_noweights : forall K, wf_k K -> sum_nat (kshape K) <> 0 ->
+  k_from_vector v0 v1 (k_tovec v0 false K) (kshape K) false = mkK (repeat v1 (krank K)) (kfactors K).
+Proof. intros; eapply from_vector_tovec_noweights; eauto. Qed.
+
+(* update with all modes (weights first) = from_vector, exactly *)
+Theorem C08_update_all_modes : forall K data, length data = krank K * (sum_nat (kshape K) + 1) ->
+  k_update v0 (None :: map Some (seq 0 (length (kfactors K)))) data K = k_from_vector v0 v1 data (kshape K) true.
+Proof. intros; eapply update_all_modes; eauto. Qed.
+
+(* update with a subset of the modes leaves the weights / factors that are not named untouched *)
+Theorem C08_update_frame : forall ms data K,
+  (~ In None ms -> kweights (k_update v0 ms data K) = kweights K) /\
+  (forall k, ~ In (Some k) ms -> nth k (kfactors (k_update v0 ms data K)) [] = nth k (kfactors K) []).
+Proof. intros; eapply update_frame; eauto. Qed.
+
+(* tolist(): the unit-weight tensor of the returned factors denotes K — for EVERY order (the sign of a weight goes into
+   factor 0 only, the N-th root of its modulus into every factor); the oracles must satisfy sgn(w) * root(|w|)^N = w *)
+Theorem C08_tolist : forall (root vsgn vabs : V -> V) (is_one : V -> bool),
+  (forall x, is_one x = true -> x = v1) -> forall K, kfactors K <> [] ->
+  (forall w, In w (kweights K) -> vmul (vsgn w) (vpow v1 vmul (root (vabs w)) (length (kfactors K))) = w) ->
+  forall i, den (mkK (map (fun _ => v1) (kweights K)) (k_tolist vmul root vsgn vabs is_one K)) i = den K i.
+Proof. intros; eapply den_tolist; eauto. Qed.
 
 (* normalize / arrange / fixsigns(other): for EVERY norm oracle that is positive on non-zero columns, every sort oracle
    that returns a permutation, every sign test; 'all' needs an N-th root on the non-negative values *)
@@ -91,6 +124,65 @@ Proof. intros; eapply den_fixsigns_other; eauto. Qed.
 Theorem C08_normal_form_nonneg : forall K r, (forall x, neg x = true -> neg (vopp x) = false) ->
   kfactors K <> [] -> r < krank K -> neg (nth r (kweights (k_fix_neg v1 vmul vopp neg K)) v0) = false.
 Proof. intros; eapply fix_neg_nonneg; eauto. Qed.
+
+(* tolist(mode): normalize(weight_factor=mode) then the factor list *)
+Theorem C08_tolist_mode : forall n K, n < length (kfactors K) ->
+  forall i, den (mkK (map (fun _ => v1) (kweights K)) (k_tolist_mode v0 v1 vmul vopp vinv nrm pos neg root srt n K)) i = den K i.
+Proof. intros; eapply den_tolist_mode; eauto. Qed.
+
+(* score: the final A.arrange(permutation=best_perm) on the normalised copy denotes the receiver *)
+Theorem C08_invariant_score_arrange : forall p K, is_perm p (krank K) ->
+  forall i, den (k_gather v0 p (normalize WNone false None K)) i = den K i.
+Proof. intros; eapply den_score_arrange; eauto. Qed.
+
+(* ---- normal form under nrm_spec: the oracle is a norm (positively homogeneous, even, zero on zero columns) ---- *)
+Hypothesis nrm_scale : forall c l, pos c = true -> nrm (map (fun x => vmul x c) l) = vmul (nrm l) c.
+Hypothesis pos_inv : forall t, pos t = true -> pos (vinv t) = true.
+Hypothesis nrm_flip : forall l, nrm (map (fun x => vmul x (vm1 v1 vopp)) l) = nrm l.
+Hypothesis nrm_zero : forall l, Forall (fun y => y = v0) l -> nrm l = v0.
+
+(* unit (or zero) columns in the requested norm after normalize(), sorted or not, and after arrange() *)
+Theorem C08_normal_form_unit_columns : forall sort K n r, n < length (kfactors K) -> r < krank K ->
+  unit_or_zero V v0 v1 nrm (nth n (kfactors (normalize WNone sort None K)) []) r.
+Proof. intros; eapply normal_form_unit_columns; eauto. Qed.
+Theorem C08_normal_form_unit_columns_mode : forall n K r, n < length (kfactors K) -> r < krank K ->
+  unit_or_zero V v0 v1 nrm (nth n (kfactors (k_normalize_mode v0 v1 vmul vinv nrm pos n K)) []) r.
+Proof. intros; eapply normalize_mode_unit; eauto. Qed.
+Theorem C08_normal_form_arrange_unit_columns : forall K n r, n < length (kfactors K) -> r < krank K ->
+  unit_or_zero V v0 v1 nrm (nth n (kfactors (k_arrange v0 v1 vmul vopp vinv nrm pos neg root srt None K)) []) r.
+Proof. intros; eapply normal_form_arrange_unit_columns; eauto. Qed.
+
+(* a component with a zero column carries weight 0 *)
+Theorem C08_normal_form_zero_weight : forall K n r, n < length (kfactors K) -> r < krank K ->
+  Forall (fun y => y = v0) (col v0 (nth n (kfactors K) []) r) ->
+  nth r (kweights (normalize WNone false None K)) v0 = v0.
+Proof. intros; eapply normal_form_zero_weight; eauto. Qed.
+Theorem C08_normal_form_zero_weight_mode : forall n K r, r < krank K ->
+  Forall (fun y => y = v0) (col v0 (nth n (kfactors K) []) r) ->
+  nth r (kweights (k_normalize_mode v0 v1 vmul vinv nrm pos n K)) v0 = v0.
+Proof. intros; eapply normalize_mode_zero_weight; eauto. Qed.
+
+(* absorbed weights are all one (normalize with weight_factor = a mode or 'all', sorted or not; arrange(weight_factor)) *)
+Theorem C08_normal_form_all_one : forall wf sort K, absorbs wf (length (kfactors K)) ->
+  krank (normalize wf sort None K) = krank K /\
+  forall r, r < krank K -> nth r (kweights (normalize wf sort None K)) v0 = v1.
+Proof. intros; eapply normal_form_all_one; eauto. Qed.
+Theorem C08_normal_form_arrange_all_one : forall n K,
+  krank (k_arrange v0 v1 vmul vopp vinv nrm pos neg root srt (Some n) K) = krank K /\
+  forall r, r < krank K -> nth r (kweights (k_arrange v0 v1 vmul vopp vinv nrm pos neg root srt (Some n) K)) v0 = v1.
+Proof. intros; eapply normal_form_arrange_all_one; eauto. Qed.
+
+(* descending weights when sorting is requested: the argsort-based permutation sorts (any total comparison) *)
+Theorem C08_normal_form_sorted_desc : forall (leb : V -> V -> bool), (forall a b, leb a b = false -> leb b a = true) ->
+  forall wf K, Sorted (fun a b => leb b a = true)
+    (kweights (k_normalize v0 v1 vmul vopp vinv nrm pos neg root (argsort_desc leb) wf true None K)) /\
+  Sorted (fun a b => leb b a = true)
+    (kweights (k_arrange v0 v1 vmul vopp vinv nrm pos neg root (argsort_desc leb) None K)).
+Proof.
+  intros leb Ht wf K.
+  exact (conj (normal_form_sorted_desc V v0 v1 vmul vopp vinv leb Ht nrm pos neg root wf K)
+              (normal_form_arrange_sorted_desc V v0 v1 vmul vopp vinv leb Ht nrm pos neg root K)).
+Qed.
 End Oracles.
 End C08.
 
@@ -111,6 +203,21 @@ Print Assumptions C08_invariant_normalize.
 Print Assumptions C08_invariant_arrange.
 Print Assumptions C08_invariant_fixsigns_other.
 Print Assumptions C08_normal_form_nonneg.
+Print Assumptions C08_permute.
+Print Assumptions C08_vec_roundtrip_noweights.
+Print Assumptions C08_update_all_modes.
+Print Assumptions C08_update_frame.
+Print Assumptions C08_tolist.
+Print Assumptions C08_tolist_mode.
+Print Assumptions C08_invariant_score_arrange.
+Print Assumptions C08_normal_form_unit_columns.
+Print Assumptions C08_normal_form_unit_columns_mode.
+Print Assumptions C08_normal_form_arrange_unit_columns.
+Print Assumptions C08_normal_form_zero_weight.
+Print Assumptions C08_normal_form_zero_weight_mode.
+Print Assumptions C08_normal_form_all_one.
+Print Assumptions C08_normal_form_arrange_all_one.
+Print Assumptions C08_normal_form_sorted_desc.
 
 (* non-vacuity: concrete non-symmetric instances over Z *)
 Example C08_example_roundtrip :
@@ -125,3 +232,31 @@ Example C08_example_redistribute_extract :
   den_k 0%Z 1%Z Z.add Z.mul (k_redistribute 1%Z Z.mul 1 K) [1; 0] = (-42)%Z /\
   k_extract 0%Z [1] K = mkK [-3]%Z [[[2]; [4]]; [[6]; [8]]]%Z.
 Proof. repeat split; reflexivity. Qed.
+
+(* the hypothesis bundle of the normal-form theorems is satisfiable: the 1-norm over Qc (exact rationals) is such an oracle *)
+Theorem C08_normal_form_unit_columns_Qc_1norm : forall neg root sort (K : ktensor Qcanon.Qc) n r,
+  n < length (kfactors K) -> r < krank K ->
+  unit_or_zero Qcanon.Qc (Qcanon.Q2Qc 0%Q) (Qcanon.Q2Qc 1%Q) qnrm
+    (nth n (kfactors (k_normalize (Qcanon.Q2Qc 0%Q) (Qcanon.Q2Qc 1%Q) Qcanon.Qcmult Qcanon.Qcopp Qcanon.Qcinv qnrm qp neg root
+                        (argsort_desc qle) WNone sort None K)) []) r.
+Proof. exact normal_form_unit_columns_Qc. Qed.
+Theorem C08_normal_form_sorted_desc_Qc : forall neg root wf (K : ktensor Qcanon.Qc),
+  Sorted (fun a b => Qcanon.Qcle b a)
+    (kweights (k_normalize (Qcanon.Q2Qc 0%Q) (Qcanon.Q2Qc 1%Q) Qcanon.Qcmult Qcanon.Qcopp Qcanon.Qcinv qnrm qp neg root
+                 (argsort_desc qle) wf true None K)).
+Proof. exact normal_form_sorted_desc_Qc. Qed.
+Print Assumptions C08_normal_form_unit_columns_Qc_1norm.
+Print Assumptions C08_normal_form_sorted_desc_Qc.
+
+(* non-vacuity of the wave-2 theorems: concrete non-symmetric instances (more in Proofs/C08Vec.v, Proofs/C08NormalForm.v) *)
+Example C08_example_update_permute :
+  k_update 0%Z [None; Some 0; Some 1] exData exU = mkK [11; 12]%Z [[[1; 3]; [2; 4]]; [[5; 8]; [6; 9]; [7; 10]]]%Z /\
+  k_update 0%Z [Some 1] [5; 6; 7; 8; 9; 10]%Z exU = mkK [1; 1]%Z [[[0; 0]; [0; 0]]; [[5; 8]; [6; 9]; [7; 10]]]%Z /\
+  kshape (k_permute [1; 0] exK) = [2; 3].
+Proof. repeat split; reflexivity. Qed.
+(* tolist() on an order-2 tensor with a NEGATIVE weight: sign once (factor 0), root twice *)
+Example C08_example_tolist_even_order_negative_weight :
+  k_tolist Z.mul ex_root Z.sgn Z.abs (Z.eqb 1) exL = [[[2; -6]; [6; -12]; [10; -18]]; [[14; 24]; [18; 30]]]%Z /\
+  den_k 0%Z 1%Z Z.add Z.mul (mkK [1; 1]%Z (k_tolist Z.mul ex_root Z.sgn Z.abs (Z.eqb 1) exL)) [2; 1] =
+  den_k 0%Z 1%Z Z.add Z.mul exL [2; 1].
+Proof. split; reflexivity. Qed.
